@@ -21,6 +21,8 @@ type ODProfile struct {
 	HostileLimits bool
 	// SliceDrift adds a third party that deletes ObjectSlices (only with Slices).
 	SliceDrift bool
+	// Namesake may add a second deployment with the same name, selector and labels in another namespace.
+	Namesake bool
 }
 
 // ODGen is the generated ObjectDeployment scenario.
@@ -202,6 +204,32 @@ func GenOD(w *World, prof ODProfile) *Scenario {
 					_, _ = w.TP("user", w.Mgmt).Mutate(store.KeyOf(newest), func(o store.Obj) { o["spec"].(map[string]any)["lifecycleState"] = "Active" })
 				}
 			}})
+		}
+	}
+	if prof.Namesake && !og.Cluster && s.Chance(1, 3, "namesake") {
+		// the same deployment name, selector and revision labels in another namespace: nothing of it
+		// belongs to od-1 in ns1, and nothing of od-1 belongs to it
+		tw := func(v string) map[string]any {
+			return map[string]any{"phases": []any{map[string]any{"name": "alpha", "objects": []any{map[string]any{"object": map[string]any{
+				"apiVersion": "v1", "kind": "ConfigMap", "metadata": map[string]any{"name": "twin-cm"}, "data": map[string]any{"k": v}}}}}}}
+		}
+		twin := store.Obj{"apiVersion": PKOGroup + "/" + PKOVer, "kind": g.Kind, "metadata": map[string]any{"name": "od-1", "namespace": nsForeign},
+			"spec": map[string]any{
+				"selector": map[string]any{"matchLabels": map[string]any{"app": "od-1"}},
+				"template": map[string]any{"metadata": map[string]any{"labels": map[string]any{"app": "od-1"}}, "spec": tw("v1")},
+			}}
+		_, err := user.Create(twin)
+		must(err)
+		sc.Desc = append(sc.Desc, "namesake: ObjectDeployment od-1 in "+nsForeign+" (ConfigMap twin-cm)")
+		if s.Bool("namesake-edit") {
+			tk := store.Key{Group: PKOGroup, Kind: g.Kind, Namespace: nsForeign, Name: "od-1"}
+			op := UserOp{Label: "edit template of the namesake in " + nsForeign, Do: func(w *World) {
+				_, _ = w.TP("user", w.Mgmt).Mutate(tk, func(o store.Obj) {
+					o["spec"].(map[string]any)["template"].(map[string]any)["spec"] = tw("v2")
+				})
+			}}
+			at := s.Intn(len(sc.UserOps)+1, "namesake-edit-at")
+			sc.UserOps = append(sc.UserOps[:at], append([]UserOp{op}, sc.UserOps[at:]...)...)
 		}
 	}
 	if prof.FinalDelete && s.Chance(2, 3, "final-delete") {
